@@ -413,13 +413,20 @@ class BounceOracle(HOracle):
         self.fail_seq = {}
 
     def vstrip(self, addr):
-        """remove the virtual-domain prefix the scenario configured (exact domain entries only)"""
+        """remove the virtual-domain prefix the scenario configured: the entry for the domain, else for the nearest
+        parent (.parent), else the catch-all decides (qmail-send(8), virtualdomains); an empty prepend means
+        'not virtual'"""
         v = getattr(self.h, "vdoms", {})
-        if b"@" in addr:
+        if b"@" in addr and v:
             local, dom = addr.rsplit(b"@", 1)
-            p = v.get(dom.lower())
-            if p and addr.startswith(p + b"-"):
-                return addr[len(p) + 1:]
+            d = dom.lower()
+            keys = [d] + [d[i:] for i in range(1, len(d)) if d[i:i + 1] == b"."] + [b""]
+            for k in keys:
+                if k in v:
+                    p = v[k]
+                    if p and addr.startswith(p + b"-"):
+                        return addr[len(p) + 1:]
+                    return addr
         return addr
 
     def expected_recipient(self, m):
